@@ -25,6 +25,15 @@ def step (line : String) : String :=
         | some .fail => "fail"
         | some (.ok m) => "ok " ++ toHexTok m
       | _, _ => "bad-op"
+  | ["norm", h, t] => match fromHex h, fromHex t with
+      | some s, some tl =>
+        if s.contains 0 then "bad-op" else
+        -- `normalize_slashes` alone, in place, on the array `s ++ NUL ++ tl`; the functional `normalizeSlashes s`
+        -- must be what the array then holds (checked here, so a difference shows as a different line)
+        match Sqfs.PathIP.normalizeIP (s.length + 3) (s ++ 0 :: tl) with
+        | none => "out-of-bounds"
+        | some m => if Sqfs.PathIP.cstr m == some (normalizeSlashes s) then "ok " ++ toHexTok m else "model-inconsistent"
+      | _, _ => "bad-op"
   | ["sane", h] => match fromHex h with
       | some s => if isFilenameSane s then "1" else "0"
       | none => "bad-op"
